@@ -2,7 +2,7 @@ import Chewing.Proofs.C01Shared
 import Chewing.Props.C03
 /-!
 C01 ↔ C03: the conversion-engine model of C03 (`Conv.convert`, all three engines) satisfies the hypothesis
-`EnvOK.convert_ok` that the C01 theorems make about `env.convert` — on buffers of at most 128 symbols and
+`EnvOK.convert_ok` / `convert_len` that the C01 theorems make about `env.convert` — on buffers of at most 128 symbols and
 dictionaries with frequencies up to 2^23 (`ScoreBound`, the `i32` score arithmetic of the debug profile).
 -/
 namespace Chewing.C01
@@ -17,12 +17,26 @@ def toEngine : EngineKind → Engine
 theorem toEngine_strategy (k : EngineKind) : (toEngine k).strategy = engStrategy k := by
   cases k <;> rfl
 
-/-- **the engines of C03 deliver what `EnvOK.convert_ok` asks for** -/
-theorem convert_ok_of_C03 {pick : Nat → List Path → Nat} (hp : PickInRange pick) {d : Dict} (hd : NoEmptyKey d)
+/-- **the engines of C03 deliver what `EnvOK.convert_ok` asks for**: on EVERY valid composition (with or
+    without a word per syllable) at least one alternative, each a chain over `0..len` whose texts have at least
+    one character per symbol — `hn`: no buffered syllable has the empty spelling (`spell 0 = []`; no keyboard
+    layout produces the syllable code 0) -/
+theorem convert_ok_of_C03 {pick : Nat → List Path → Nat} (hp : PickInRange pick) {d : Dict}
     (hw : WellFormed d) (hf : ∀ strat key, ∀ p ∈ d.lookup key strat, p.freq ≤ 8388608)
-    (k : EngineKind) {c : Composition} (hc : CompValid c) (hlen : c.symbols.length ≤ 128)
-    (hword : ∀ x, Sym.syl x ∈ c.symbols → (d.lookup [x] (engStrategy k)).head?.isSome = true) :
-    OkAnd (fun paths => paths ≠ [] ∧ ∀ p ∈ paths, PathOK c p) (Conv.convert pick (toEngine k) d c) := by
+    (k : EngineKind) {c : Composition} (hc : CompValid c) (hlen : c.symbols.length ≤ 128) (hn : SpellNonempty c) :
+    OkAnd (fun paths => paths ≠ [] ∧ ∀ p ∈ paths, PathW c p) (Conv.convert pick (toEngine k) d c) := by
+  have hsb : ScoreBound d (toEngine k).strategy c := ⟨hlen, hf _⟩
+  obtain ⟨alts, hq, hne⟩ := C03.nonempty_result hp hc hsb
+  exact ⟨alts, hq, hne, fun p hpm =>
+    ⟨C03.alt_chain hc hq p hpm, C03.text_at_least_one_per_symbol hc hw hn hq p hpm⟩⟩
+
+/-- **… and `EnvOK.convert_len`**: exactly one character per symbol when every syllable has a word under the
+    engine's strategy -/
+theorem convert_len_of_C03 {pick : Nat → List Path → Nat} {d : Dict} (hw : WellFormed d)
+    (k : EngineKind) {c : Composition} (hc : CompValid c)
+    (hword : ∀ x, Sym.syl x ∈ c.symbols → (d.lookup [x] (engStrategy k)).head?.isSome = true)
+    {paths : List (List Interval)} (hq : Conv.convert pick (toEngine k) d c = .ok paths) :
+    ∀ p ∈ paths, ∀ iv ∈ p, iv.text.length = iv.stop - iv.start := by
   have hhas : HasWord d (toEngine k).strategy c := by
     intro x hx
     rw [toEngine_strategy]
@@ -30,14 +44,6 @@ theorem convert_ok_of_C03 {pick : Nat → List Path → Nat} (hp : PickInRange p
     intro he
     rw [he] at this
     cases this
-  have hsb : ScoreBound d (toEngine k).strategy c := ⟨hlen, hf _⟩
-  obtain ⟨alts, hq, hne⟩ := C03.nonempty_result hp hc hd hhas hsb
-  refine ⟨alts, hq, hne, ?_⟩
-  intro p hpm
-  refine ⟨C03.alt_chain hc hd hq p hpm, C03.one_char_per_symbol hc hd hw ?_ hq p hpm⟩
-  intro hs
-  have : (toEngine k).strategy = .standard := by rw [hs]; rfl
-  rw [← this]
-  exact hhas
+  exact fun p hpm => C03.one_char_per_symbol hc hw hhas hq p hpm
 
 end Chewing.C01
